@@ -125,6 +125,7 @@ def extract_insertion(repo, t):
     noise_if = body[-1]
     # ---- renaming of multi-controlled CNOT (before the dispatch)
     t["rename_rule"] = None
+    t["needs_control"] = []
     renamed_var = None
     pre = body[:-2]
     dispatch = body[-2]
@@ -136,8 +137,17 @@ def extract_insertion(repo, t):
                 and shape(st.value) == "%s.name" % gv:
             names_before[st.targets[0].id] = True
             continue
-        expect(isinstance(st, ast.If) and shape(st.test) == "%s.control is not None" % gv and not st.orelse,
+        expect(isinstance(st, ast.If) and shape(st.test) == "%s.control is not None" % gv,
                "translate_c_to_cirq: unexpected statement before the gate dispatch: %s" % shape(st)[:120])
+        if st.orelse:
+            # elif gate.name in {...controlled names...}: raise ValueError   (a controlled gate without controls)
+            expect(len(st.orelse) == 1 and isinstance(st.orelse[0], ast.If) and not st.orelse[0].orelse,
+                   "translate_c_to_cirq: unexpected else-branch of the control block")
+            el = st.orelse[0]
+            expect(isinstance(el.test, ast.Compare) and len(el.test.ops) == 1 and isinstance(el.test.ops[0], ast.In)
+                   and shape(el.test.left) == "%s.name" % gv and [shape(x) for x in el.body] == ["raise ValueError"],
+                   "translate_c_to_cirq: unexpected else-branch of the control block: %s" % shape(el)[:120])
+            t["needs_control"] = sorted(str_collection(el.test.comparators[0], "names that need a control"))
         inner = st.body
         expect(shape(inner[0]) == "num_controls = len(%s.control)" % gv,
                "translate_c_to_cirq: num_controls is not len(gate.control)")
@@ -278,6 +288,8 @@ def emit(t):
          "|}.",
          "(* the noise look-up sees the name AFTER the renaming of multi-controlled gates *)",
          "Definition lookup_renamed : bool := %s." % ("true" if t["lookup_renamed"] else "false"),
+         "(* controlled gate names that translate_c_to_cirq refuses without a control (empty: no such check) *)",
+         "Definition needs_control : list string := %s." % coq_string_list(t["needs_control"]),
          "(* argument of cirq.depolarize:  %s  *)" % t["rate_src"],
          "Definition depol_rate_Qc (np : Qc) (depo_size : nat) : Qc := %s%%Qc." % t["rate_Qc"],
          "Definition depol_rate_R (np : R) (depo_size : nat) : R := %s%%R." % t["rate_R"],
